@@ -66,13 +66,26 @@ def gen_case(rng):
     files = []
     descr = []
     for i in range(n):
-        name = rng.choice(("noevents", "noevents", "noevents", "pnp", "pnp", "u22x3"))
+        name = rng.choice(("noevents", "noevents", "noevents", "pnp", "pnp", "u22x3", "genj", "genj", "genj"))
         cont = rng.choice(("gz", "bz2", "xz", "lz4", "tar"))
         if name == "u22x3" and cont == "bz2":
             cont = "gz"   # 8 MiB through the pure-Rust bzip2 decoder costs seconds; covered by the evtx sources
         variant = rng.randrange(6)
-        data = encode_fixture(name, cont, variant)
-        suffix = ".journal" if fixtures.kind_of(name) == "journal" else ".evtx"
+        if name == "genj":
+            # a generated journal (sim/journalgen.py, read back through journalctl): a few KiB .. ~100 KiB, i.e. from less
+            # than one extraction chunk to several
+            import c09
+            plain, _, _ = c09.gen_journal(rng)
+            suffix = ".journal"
+            if cont == "tar":
+                data = world.to_tar([("m" + suffix, plain, 1600000000)], ("ustar", "gnu", "pax")[variant % 3])
+            else:
+                data, _ = world.random_container(rng, cont, plain, 1600000000, "m" + suffix)
+            plain_len = len(plain)
+        else:
+            data = encode_fixture(name, cont, variant)
+            suffix = ".journal" if fixtures.kind_of(name) == "journal" else ".evtx"
+            plain_len = len(fixtures.load(name))
         corrupt = None
         if rng.random() < 0.25:
             cut = rng.randrange(max(1, len(data) // 8), len(data))
@@ -81,7 +94,7 @@ def gen_case(rng):
         path = "%d_%s%s.%s" % (i, name, suffix, cont) if cont != "tar" else "%d_%s.tar" % (i, name)
         files.append(core.FileSpec(path, data, 1600000000 + i))
         descr.append({"path": path, "fixture": name, "container": cont, "variant": variant, "corrupt": corrupt,
-                      "bytes": len(data)})
+                      "bytes": len(data), "plain_len": plain_len})
     if rng.random() < 0.4:
         p = world.TextLogParams(n_msgs=rng.randint(1, 8), src_letter=b"T", cont_p=0.2)
         content, msgs, _ = world.gen_text_log(rng, p)
@@ -265,7 +278,7 @@ def run_case(seed, i, tier):
         res = run_with(scn, p2)
         account(res, p2, "sigint")
     # ---- disk-full and broken-pipe faults (preload/seed.c): TMPDIR must be empty after these exits too ----
-    tmp_total = sum(len(fixtures.load(d["fixture"])) for d in descr if d.get("container"))
+    tmp_total = sum(d["plain_len"] for d in descr if d.get("container"))
     io_runs = []
     if tmp_total:
         cand = {0, 1, tmp_total - 1, rng.randrange(tmp_total), rng.randrange(min(tmp_total, 70000)),
@@ -358,7 +371,7 @@ def minimise(rp, cls):
 
 
 RULE = ("one case = 1..3 compressed/archived journal or evtx sources (shipped NoEvents.evtx, Kernel-PnP evtx, "
-        "Ubuntu22 journal; containers gz/bz2/xz/lz4/tar; 25% truncated so extraction fails half-way), optionally a text "
+        "Ubuntu22 journal, generated journals of 0..150 entries; containers gz/bz2/xz/lz4/tar; 25% truncated so extraction fails half-way), optionally a text "
         "source; a base run without signal plus SIGINT delivered at step k for k in a stratified sample of the "
         "temp-file life cycle (quick) or every k in 0..N (thorough), 15% with a second SIGINT; plus runs in which "
         "TMPDIR fills up after N bytes (ENOSPC, N on 0/1/64KiB edges/random) or stdout's reader goes away after N bytes "
